@@ -208,7 +208,9 @@ class FixtureSuite(unittest.TestSuite):
             self._fixture.cleanUp()
 
     def sort_tests(self):
-        self._tests = sorted_tests(self, True)
+        # _tests stays a list: TestSuite.addTest, unittest's own run loop and
+        # filter_by_ids all rewrite it in place.
+        self._tests = list(sorted_tests(self, True))
 
 
 def _flatten_tests(suite_or_case, unpack_outer=False):
